@@ -157,6 +157,28 @@ var baseConfOnce sync.Once
 var baseConfStore config.Config
 
 func newInstance(cfg InstCfg) (*Instance, error) {
+	db, err := newInstanceRaw(cfg)
+	if err != nil {
+		return nil, err
+	}
+	in := &Instance{cfg: cfg, db: db}
+	n := cfg.Conns
+	if n == 0 {
+		n = 1
+	}
+	if n < 0 {
+		n = 0
+	}
+	for i := 0; i < n; i++ {
+		in.openConn()
+		in.Quiesce() // one at a time: connection ids are then deterministic (c<k> has id k+1)
+	}
+	in.Quiesce()
+	return in, nil
+}
+
+// newInstanceRaw builds the configuration and starts the server (no connections).
+func newInstanceRaw(cfg InstCfg) (*sugardb.SugarDB, error) {
 	conf := defaultConf()
 	conf.DataDir = cfg.DataDir
 	conf.RestoreAOF = cfg.RestoreAOF
@@ -183,24 +205,7 @@ func newInstance(cfg InstCfg) (*Instance, error) {
 	conf.Password = cfg.Password
 	conf.AclConfig = cfg.AclConfig
 	conf.BindAddr = "localhost"
-	db, err := sugardb.NewSugarDB(sugardb.WithConfig(conf))
-	if err != nil {
-		return nil, err
-	}
-	in := &Instance{cfg: cfg, db: db}
-	n := cfg.Conns
-	if n == 0 {
-		n = 1
-	}
-	if n < 0 {
-		n = 0
-	}
-	for i := 0; i < n; i++ {
-		in.openConn()
-		in.Quiesce() // one at a time: connection ids are then deterministic (c<k> has id k+1)
-	}
-	in.Quiesce()
-	return in, nil
+	return sugardb.NewSugarDB(sugardb.WithConfig(conf))
 }
 
 func (in *Instance) openConn() int {
@@ -223,7 +228,7 @@ func (in *Instance) openConn() int {
 	return len(in.conns) - 1
 }
 
-var hangTimeout = 10 * time.Second
+var hangTimeout = 20 * time.Second
 
 // Quiesce waits for the instance to go idle.  Returns false on a hang.
 func (in *Instance) Quiesce() bool {
